@@ -109,3 +109,7 @@ print('exits with held!=0:', len(bad_exit))
 print('exits where an exception escapes:', len(escaping)); 
 for k, ev in sorted({(k, ev[-3:]) for k, ev in escaping})[:12]: print('   ', k, ev)
 print('exits with no final-state write:', len(final_missing))
+dbl = [ev for k, ev in escaping if k == ('R','CancelledError')]
+print('escaping CancelledError (raised inside a handler await):', len(dbl))
+from collections import Counter
+print(Counter(k[1] for k, ev in escaping))
